@@ -7,7 +7,11 @@ import (
 	"net"
 	"os"
 	"sync"
+	"sync/atomic"
+	"syscall"
 	"time"
+
+	erpc "github.com/henrylee2cn/erpc/v6"
 )
 
 // Addr is a named in-memory address.
@@ -34,11 +38,12 @@ type half struct {
 	mu       sync.Mutex
 	cond     *sync.Cond
 	buf      []byte
-	eof      bool  // writer closed: reader sees EOF after draining
-	rerr     error // reader-side immediate error (local close)
-	werr     error // writer-side error
-	total    int   // bytes accepted so far
-	cutAt    int   // -1: none; otherwise the stream is cut after this many bytes
+	base     []byte // start of buf's backing array (reused once the reader has drained everything)
+	eof      bool   // writer closed: reader sees EOF after draining
+	rerr     error  // reader-side immediate error (local close)
+	werr     error  // writer-side error
+	total    int    // bytes accepted so far
+	cutAt    int    // -1: none; otherwise the stream is cut after this many bytes
 	onCut    func()
 	chunk    func() int // max bytes per Read (nil: unlimited)
 	tap      []byte
@@ -109,7 +114,14 @@ func (h *half) write(p []byte) (int, error) {
 		h.werr = errPipe
 		fire = h.onCut
 	}
+	drained := len(h.buf) == 0
+	if drained {
+		h.buf = h.base[:0] // the reader has consumed everything: reuse the backing array
+	}
 	h.buf = append(h.buf, q...)
+	if drained {
+		h.base = h.buf[:0]
+	}
 	if h.tapOn {
 		h.tap = append(h.tap, q...)
 	}
@@ -151,6 +163,7 @@ type Conn struct {
 	la, ra Addr
 	once   sync.Once
 	peer   *Conn
+	wdl    int64 // write deadline (unix nanoseconds, 0 = none)
 }
 
 // Pipe creates a connected pair. a is given local address an and remote bn.
@@ -166,7 +179,13 @@ func Pipe(an, bn string) (a, b *Conn) {
 func (c *Conn) Read(p []byte) (int, error) { return c.r.read(p) }
 
 // Write implements net.Conn.
-func (c *Conn) Write(p []byte) (int, error) { return c.w.write(p) }
+func (c *Conn) Write(p []byte) (int, error) {
+	// like a real connection: a write under a write deadline that has passed fails with a timeout
+	if dl := atomic.LoadInt64(&c.wdl); dl != 0 && time.Now().UnixNano() > dl {
+		return 0, os.ErrDeadlineExceeded
+	}
+	return c.w.write(p)
+}
 
 // Close closes this end: the peer reads EOF after draining; local reads fail.
 func (c *Conn) Close() error {
@@ -242,6 +261,12 @@ func (c *Conn) FailWrites() {
 // (the writing goroutine is slow to come back from the system call).
 func (c *Conn) SetWriteReturnDelay(d time.Duration) { c.w.mu.Lock(); c.w.wdelay = d; c.w.mu.Unlock() }
 
+// Unread returns how many bytes written by this end the peer has not read yet.
+func (c *Conn) Unread() int { c.w.mu.Lock(); defer c.w.mu.Unlock(); return len(c.w.buf) }
+
+// TapIn starts recording only what this end receives.
+func (c *Conn) TapIn() { c.r.mu.Lock(); c.r.tapOn = true; c.r.mu.Unlock() }
+
 // Written returns the number of bytes this end wrote so far.
 func (c *Conn) Written() int { c.w.mu.Lock(); defer c.w.mu.Unlock(); return c.w.total }
 
@@ -276,13 +301,23 @@ func (c *Conn) LocalAddr() net.Addr { return c.la }
 func (c *Conn) RemoteAddr() net.Addr { return c.ra }
 
 // SetDeadline implements net.Conn.
-func (c *Conn) SetDeadline(t time.Time) error { c.r.setReadDeadline(t); return nil }
+func (c *Conn) SetDeadline(t time.Time) error {
+	c.r.setReadDeadline(t)
+	return c.SetWriteDeadline(t)
+}
 
 // SetReadDeadline implements net.Conn.
 func (c *Conn) SetReadDeadline(t time.Time) error { c.r.setReadDeadline(t); return nil }
 
-// SetWriteDeadline implements net.Conn (writes never block).
-func (c *Conn) SetWriteDeadline(t time.Time) error { return nil }
+// SetWriteDeadline implements net.Conn (writes never block; a write after the deadline has passed fails).
+func (c *Conn) SetWriteDeadline(t time.Time) error {
+	if t.IsZero() {
+		atomic.StoreInt64(&c.wdl, 0)
+	} else {
+		atomic.StoreInt64(&c.wdl, t.UnixNano())
+	}
+	return nil
+}
 
 // MemListener is an in-memory net.Listener: Inject hands the server end of a
 // Pipe to the accept loop (erpc.VerifServeListener).
@@ -320,6 +355,34 @@ func (l *MemListener) Inject(c net.Conn) {
 	case l.ch <- c:
 	case <-l.done:
 	}
+}
+
+// NoLinger wraps a TCP listener: accepted connections are closed with a reset instead of the orderly shutdown, so that
+// they leave no TIME_WAIT entry behind (drivers that open tens of thousands of loopback connections would otherwise
+// exhaust the local ports of the machine).
+type NoLinger struct{ net.Listener }
+
+// Accept implements net.Listener.
+func (l NoLinger) Accept() (net.Conn, error) {
+	c, err := l.Listener.Accept()
+	if tc, ok := c.(*net.TCPConn); ok {
+		tc.SetLinger(0)
+	}
+	return c, err
+}
+
+// NoLingerDial is a dial hook that does the same on the dialling side (also for re-dialled connections).
+type NoLingerDial struct{}
+
+// Name implements erpc.Plugin.
+func (NoLingerDial) Name() string { return "verif-no-linger" }
+
+// PostDial implements erpc.PostDialPlugin.
+func (NoLingerDial) PostDial(sess erpc.PreSession, isRedial bool) *erpc.Status {
+	sess.ControlFD(func(fd uintptr) {
+		syscall.SetsockoptLinger(int(fd), syscall.SOL_SOCKET, syscall.SO_LINGER, &syscall.Linger{Onoff: 1, Linger: 0})
+	})
+	return nil
 }
 
 // LoopListen listens on a loopback address that belongs to this process alone: 127.x.y.z derived from the
